@@ -415,6 +415,10 @@ def c19(scn, run):
                         return f"{list(k)} status {b['status']} came back as {a['status']}"
                     if a["submit_num"] != want_sn:
                         return f"{list(k)} submit number {b['submit_num']} ({b['status']}) came back as {a['submit_num']}"
+                    if (not b["held"]) and a["held"] and before["hold_point"] is not None and k[0] > before["hold_point"] \
+                            and list(k) not in before["to_hold"]:
+                        return (f"{list(k)} had been released individually although it lies beyond the hold point "
+                                f"{before['hold_point']}; the restart re-applied the hold point to the reloaded pool and holds it again")
                     for fld in ("flows", "held", "outputs", "sat"):
                         if a[fld] != b[fld]:
                             return f"{list(k)} {fld} {b[fld]} came back as {a[fld]} after restart"
@@ -649,6 +653,21 @@ def c20(scn, run):
                 return ("custom output(s) lost by the crash: the job's message was accepted and processed in memory, the "
                         f"scheduler died before committing it and the job does not send it again: {lost_custom}")
             if b["submitted"] != a["submitted"]:
+                missing = {tuple(x) for x in b["submitted"]} - {tuple(x) for x in a["submitted"]}
+                extra = {tuple(x) for x in a["submitted"]} - {tuple(x) for x in b["submitted"]}
+                g_ = S.instance_graph(scn)["inst"]
+
+                def downstream_of_lost(m, seen=()):
+                    # m itself was spawned in the crash iteration, or it can only be spawned by such an instance
+                    if m in spawned_in_crash_tick:
+                        return True
+                    ups = {tuple(a_["id"]) for ex in g_.get(m, {}).get("prereqs", []) for a_ in S.atoms_c(ex) if not a_["pre"]}
+                    return bool(ups) and any(u in missing and u not in seen and downstream_of_lost(u, seen + (m,)) for u in ups)
+                if missing and not extra and all(downstream_of_lost(m) for m in missing):
+                    lost = sorted(m for m in missing if m in spawned_in_crash_tick)
+                    return (f"{[list(m) for m in lost]} was spawned in the main-loop iteration in which the scheduler died; "
+                            f"the spawning was not (or only partly) committed and the output that spawned it is not produced again after "
+                            f"the restart, so it and its descendants {[list(m) for m in sorted(missing - set(lost))]} never run")
                 return (f"after the crash the run submitted {a['submitted']} but the uninterrupted run "
                         f"submitted {b['submitted']}")
             if b["outputs"] != a["outputs"]:
